@@ -41,6 +41,24 @@ func checkGenuine(cs *mon.Case, w *World, g *Genuine) (string, string) {
 		return "genuine-rejected", fmt.Sprintf("conforming response rejected by ValidateEncodedResponse: %v", err)
 	}
 	cs.Outcome("accepted")
+	// the same document through the skip-signature path: plain assertions must be reproduced just as faithfully
+	allPlain := true
+	for _, a := range g.Rec.Assertions {
+		allPlain = allPlain && a.Enc == nil
+	}
+	if allPlain {
+		sp2, _, _ := NewSP(w.Now)
+		sp2.SkipSignatureValidation = true
+		r2, err2 := sp2.ValidateEncodedResponse(enc)
+		if err2 != nil {
+			return "genuine-rejected-skip-path", fmt.Sprintf("conforming response rejected with signature checking disabled: %v", err2)
+		}
+		if k, m := compareGenuine(g, g.Rec, r2, nil, fmt.Errorf("not checked")); k != "" && k != "genuine-rejected-info" {
+			if !g.AttrCR {
+				return k + ":skip-path", "skip-signature path: " + m
+			}
+		}
+	}
 	ai, aierr := sp.RetrieveAssertionInfo(enc)
 	key, msg := compareGenuine(g, g.Rec, resp, ai, aierr)
 	if key != "" && g.AttrCR {
